@@ -13,10 +13,15 @@ META = dict(
               "substrates, cache on/off/tiny, dedupe on/off, against single-entry runs; batched versus one-shot clustering incl. an existing representative library in another order (five lists of 3-4 graphs, harness shared with C13; one of them with a solver-chosen, possibly empty pre-grouping attribute that is not determined by the graph)",
         thorough="k<=4 entries x 3 rules",
     ),
-    outside=["loky / ProcessPoolExecutor scheduling and worker counts (entry_n_jobs, rule_n_jobs > 1)",
+    outside=["loky / ProcessPoolExecutor scheduling itself (which worker runs which task, pickled copies of the reactor and "
+             "of its cache in worker processes)",
              "AAMValidator.validate_smiles, dicts_balance_check, SynCRN.build(parallel=True): OS processes and RDKit",
              "parallel validation / balance checking / network expansion"],
-    stubs=["module attribute `id` of synkit.Synthesis.Reactor.batch_reactor: returns the modelled address of the object "
+    stubs=["workers harness: joblib.Parallel as imported by synkit.Synthesis.Reactor.batch_reactor is replaced by a stand-in "
+           "that runs the submitted tasks in the calling process and returns their results in submission order "
+           "(joblib's contract); entry_n_jobs in 1..3, rule_n_jobs in 1..4, parallel_rules, allow_nested, cache, dedupe, "
+           "direction and batch order are solver-chosen, 2 entries (thorough 3) x 3 rules",
+           "module attribute `id` of synkit.Synthesis.Reactor.batch_reactor: returns the modelled address of the object "
            "(solver-chosen for substrates, distinct constants for rules)",
            "_RuleApplier._execute overridden in a subclass by an uninterpreted tag of (substrate content, rule content, "
            "direction): the reactor itself is C03's subject; __call__ (the cache logic) is the real inherited code"],
@@ -145,6 +150,53 @@ def h_batch(E, n):
     E.observe([o.get("count") for o in out])
 
 
+class _InOrderParallel:
+    """stand-in for joblib.Parallel: runs the submitted (function, args, kwargs) tasks in the calling process and returns
+    their results in submission order, which is joblib's documented contract; which worker runs what is not modelled."""
+
+    def __init__(self, n_jobs=None, **kw):
+        self.n_jobs = n_jobs
+
+    def __call__(self, tasks):
+        return [f(*a, **k) for f, a, k in tasks]
+
+
+def h_workers(E, ids):
+    """BatchReactor.fit with solver-chosen worker counts and parallelism switches: how the work is cut into tasks and how
+    the task results are merged is the real code, the scheduler is the in-order stand-in above."""
+    from synkit.Synthesis.Reactor import batch_reactor as br
+
+    n = len(ids)
+    order = [int(x) for x in E.perm("order", n)]
+    cache = bool(E.bool("cache"))
+    dedupe = bool(E.bool("dedupe"))
+    inv = bool(E.bool("invert"))
+    ej = int(E.choice("entry_n_jobs", [1, 2, 3]))
+    rj = int(E.choice("rule_n_jobs", [1, 2, 3, 4]))
+    pr = bool(E.bool("parallel_rules"))
+    nested = bool(E.bool("allow_nested"))
+    data = [ENTRIES[ids[i]] for i in order]
+    old = br.Parallel
+    br.Parallel = _InOrderParallel
+    try:
+        out = br.BatchReactor(data, enable_logging=False, dedupe=dedupe, cache_enabled=cache, entry_n_jobs=ej, rule_n_jobs=rj,
+                              parallel_rules=pr, allow_nested=nested).fit(RULES, invert=inv)
+    finally:
+        br.Parallel = old
+    key = "syn_bw" if inv else "syn_fw"
+    bad = len(out) != n
+    for pos, i in enumerate(order):
+        sk = (ENTRIES[ids[i]], dedupe, inv)
+        if sk not in _single:
+            _single[sk] = br.BatchReactor([ENTRIES[ids[i]]], enable_logging=False, dedupe=dedupe, cache_enabled=False).fit(RULES, invert=inv)[0]
+        if not bad and (out[pos].get(key) != _single[sk].get(key) or out[pos].get("count") != _single[sk].get("count")):
+            bad = True
+    E.check(bad, "worker-counts-change-the-output", dict(order=order, cache=cache, dedupe=dedupe, invert=inv, entry_n_jobs=ej,
+                                                         rule_n_jobs=rj, parallel_rules=pr, allow_nested=nested))
+    E.note(nontrivial=ej > 1 or (pr and rj > 1))
+    E.observe([o.get("count") for o in out])
+
+
 def h_cluster(E, shapes, use_attr, **kw):
     """batched versus one-shot clustering, incl. an existing library held in another order (harness shared with C13)"""
     from harness.c13 import h_cluster as hc
@@ -152,16 +204,16 @@ def h_cluster(E, shapes, use_attr, **kw):
     hc(E, shapes, use_attr, **kw)
 
 
-HARNESSES = {"cache": h_cache, "batch": h_batch, "cluster": h_cluster}
+HARNESSES = {"cache": h_cache, "batch": h_batch, "workers": h_workers, "cluster": h_cluster}
 
 
 def shards(tier, seed):
-    sh = [dict(h="cache", params=dict(k=2, r=1)), dict(h="cache", params=dict(k=3, r=1)), dict(h="batch", params=dict(n=4)),
+    sh = [dict(h="cache", params=dict(k=2, r=1)), dict(h="cache", params=dict(k=3, r=1)), dict(h="batch", params=dict(n=4)), dict(h="workers", params=dict(ids=[3, 1])),
           dict(h="cluster", params=dict(shapes=["K2", "P3", "E2"], use_attr=True)),
           dict(h="cluster", params=dict(shapes=["K2", "E2", "K2"], use_attr=False)),
           dict(h="cluster", params=dict(shapes=["K2", "K2", "K2"], use_attr=True)),
           dict(h="cluster", params=dict(shapes=["K2", "K2", "K2", "K2"], use_attr=True, carbon_only=True)),
           dict(h="cluster", params=dict(shapes=["K2", "K2", "K2"], use_attr=False, free_attr=True, carbon_only=True))]
     if tier == "thorough":
-        sh += [dict(h="cache", params=dict(k=3, r=2)), dict(h="batch", params=dict(n=5))]
+        sh += [dict(h="cache", params=dict(k=3, r=2)), dict(h="batch", params=dict(n=5)), dict(h="workers", params=dict(ids=[0, 3, 4]))]
     return sh
